@@ -200,6 +200,16 @@ def project(R):
             "layers_ok": layers_ok, "colors_ok": colors_ok}
 
 
+def fingerprint(R):
+    """Everything of a path that must not move when the OTHER path is edited (exact, order included)."""
+    p = R.path
+    return (np.asarray(p.vertices, dtype=np.float64).tobytes(), np.shape(p.vertices),
+            tuple((type(e).__name__, np.asarray(e.points).tobytes(), e.layer,
+                   None if getattr(e, "color", None) is None else tuple(np.asarray(e.color).reshape(-1).tolist()),
+                   bool(getattr(e, "_closed", False)), getattr(e, UID, None), e.metadata.get("tag"))
+                  for e in p.entities))
+
+
 def model_draw(S):
     out = set()
     for t, a, m, b, cl in seq(S["dr"]):
@@ -360,8 +370,8 @@ def replay_one(trimesh, beh, variant):
     stash, stash_proj = None, None
     if not h[0]["sst"].get("none"):
         stash = build(trimesh, h[0]["sst"], emb, variant + 1)
-        stash_proj = project(stash)
-        if not struct_match(stash_proj, h[0]["sst"])[0]:
+        stash_proj = fingerprint(stash)
+        if not struct_match(project(stash), h[0]["sst"])[0]:
             raise MachineryError("harness cannot present the second start drawing")
     prev = h[0]["st"]                 # model state (as built) before the step
     exploded = set()                  # ghost ids of entities created by explode (metadata is not demanded there)
@@ -463,7 +473,7 @@ def replay_one(trimesh, beh, variant):
                 elif op == "concat":
                     fresh = {a: b for a, b in seq(st["fresh"])}
                     exploded.update(b for a, b in fresh.items() if a in exploded)
-                    before = (project(cur), project(stash))
+                    before = (fingerprint(cur), fingerprint(stash))
                     saved = [(e, getattr(e, UID, None)) for e in stash.path.entities]
                     for e, u in saved:
                         setattr(e, UID, fresh.get(u))
@@ -504,7 +514,7 @@ def replay_one(trimesh, beh, variant):
                     out["drift"] = {"step": si, "op": op, "why": "after the exception: " + why}
                     raise Stop()
                 cur.m2r = m2r
-                if stash is not None and project(stash) != stash_proj:
+                if stash is not None and fingerprint(stash) != stash_proj:
                     viol("CopyIndependent", {"what": "the failed operation changed the other path", "op": op}, si)
                     raise Stop()
                 prev = A
@@ -515,12 +525,12 @@ def replay_one(trimesh, beh, variant):
                 out["obsolete"] = devid
             # ---- the other path must not have been touched (aliasing), operands of + stay intact
             if op == "swap":
-                stash_proj = project(stash)
+                stash_proj = fingerprint(stash)
             elif op == "concat":
-                if (project(old_cur), project(stash)) != before:
+                if (fingerprint(old_cur), fingerprint(stash)) != before:
                     viol("OperandsUntouched", {"what": "an operand of the concatenation changed"}, si)
                     raise Stop()
-            elif op != "copy" and stash is not None and project(stash) != stash_proj:
+            elif op != "copy" and stash is not None and fingerprint(stash) != stash_proj:
                 viol("CopyIndependent", {"what": "editing one path changed the other one", "op": op}, si)
                 raise Stop()
             # ---- the step's own return value
@@ -561,7 +571,7 @@ def replay_one(trimesh, beh, variant):
                     viol("CopyEqualsOriginal", {"why": whys, "prop": bads}, si)
                     raise Stop()
                 stash.m2r = m2rs
-                stash_proj = Ps
+                stash_proj = fingerprint(stash)
             prev = A
         # ---------------- closing sweep: every reader and the per-entity values of both paths
         for R, fin in ((cur, beh["fin"]), (stash, beh["sfin"])):
